@@ -39,8 +39,21 @@ def run(tier):
         rep.violation(v["clause"], v["cond"], "any", {"line": v["line"], "event": recs[v["line"] - 1], "context": ctx, "trace": trace})
     if res["nviol"] > len(res["viol"]):
         rep.notes.append("%d violations in total, first %d kept" % (res["nviol"], len(res["viol"])))
+    # 2b. reply rule: find-node replies of real managers observed at the in-memory hub (driver c01), judged by Trace_Lookup.tla
+    ltrace = os.path.join(wd, "lookup_trace.ndjson")
+    vlib.run_harness(["c01", "drive", "out=" + ltrace, "segments=%d" % (400 if big else 50), "lookups=5"], timeout=3000)
+    lres, _ = vlib.validate_trace("Trace_Lookup", "Trace_Lookup.cfg", ltrace, os.path.join(wd, "lookup_out.json"), timeout=3000)
+    lrecs = vlib.read_ndjson(ltrace)
+    for e in lrecs:
+        if e["ev"] == "Reply":
+            rep.count_case(["reply", e["x"], e["r"], e["known"], e["nodes"], e["rank"]])
+    for v in lres["viol"]:
+        if v["site"] == "handle_lookup_request":
+            rep.violation(v["clause"], v["site"], v["cond"], {"line": v["line"], "event": lrecs[v["line"] - 1]})
+    rep.coverage["replies_checked"] = lres["replies"]
     # 3. binding self-test: a corrupted answer and a dropped Add must be rejected by the acceptor
-    selftest(recs, wd)
+    if not rep.unknown_violations():
+        selftest(recs, wd)   # binding self-test (skipped when the run already has mismatches to report)
     return rep.finish(
         rule="random join/add/fail/evict histories over embedded 3..10-bit id spaces on the real DhtCoreEngine; a case = "
              "(entry point, key, n, answer); distinct by content; every answer compared with Closest(members,key,n) by TLC",
